@@ -409,36 +409,56 @@ theorem stage_eq_spec (db : Db) (op : String) (opts : Val) (docs s : List Val)
     | _ => simp at hs
   by_cases h3 : op = "$skip"
   · subst h3
-    simp only [specStage, show ¬ ("$skip" = "$match") by decide, show ¬ ("$skip" = "$sort") by decide,
-      if_false, if_true] at hs
-    cases opts with
-    | int n =>
-      simp only at hs
+    simp only [specStage, stageReasons, show ¬ ("$skip" = "$match") by decide,
+      show ¬ ("$skip" = "$sort") by decide, if_false, if_true, decide_true, Bool.true_or] at hs hD
+    show skipStage opts docs = .ok s
+    cases hc : sliceCount opts with
+    | none => simp [hc] at hs
+    | some k =>
+      simp only [hc] at hs
       split at hs
-      · rename_i hn
+      · rename_i hk
         cases hs
-        exact skipStage_nonneg n docs hn
+        cases opts with
+        | int n =>
+          simp only [sliceCount, Option.some.injEq] at hc
+          subst hc
+          rw [skipStage_int, if_pos hk]
+        | dbl m e =>
+          have : argRejected "$skip" (.dbl m e) = false := by
+            simp [argRejected, hc, Int.not_lt.mpr hk]
+          simp [this] at hD
+        | _ => simp [sliceCount] at hc
       · cases hs
-    | _ => simp at hs
   by_cases h4 : op = "$limit"
   · subst h4
-    simp only [specStage, show ¬ ("$limit" = "$match") by decide,
+    simp only [specStage, stageReasons, show ¬ ("$limit" = "$match") by decide,
       show ¬ ("$limit" = "$sort") by decide, show ¬ ("$limit" = "$skip") by decide,
-      if_false, if_true] at hs
-    cases opts with
-    | int n =>
-      simp only at hs
+      if_false, if_true, decide_true, decide_false, Bool.or_true] at hs hD
+    show limitStage opts docs = .ok s
+    cases hc : sliceCount opts with
+    | none => simp [hc] at hs
+    | some k =>
+      simp only [hc] at hs
       split at hs
-      · rename_i hn
+      · rename_i hk
         cases hs
-        exact limitStage_nonneg n docs (by omega)
+        cases opts with
+        | int n =>
+          simp only [sliceCount, Option.some.injEq] at hc
+          subst hc
+          rw [limitStage_int, if_pos hk]
+        | dbl m e =>
+          have : argRejected "$limit" (.dbl m e) = false := by
+            simp [argRejected, hc, Int.not_le.mpr hk]
+          simp [this] at hD
+        | _ => simp [sliceCount] at hc
       · cases hs
-    | _ => simp at hs
   by_cases h5 : op = "$count"
   · subst h5
     simp only [specStage, stageReasons, show ¬ ("$count" = "$match") by decide,
       show ¬ ("$count" = "$sort") by decide, show ¬ ("$count" = "$skip") by decide,
-      show ¬ ("$count" = "$limit") by decide, if_false, if_true] at hs hD
+      show ¬ ("$count" = "$limit") by decide, decide_false, Bool.or_self, Bool.false_eq_true, if_false, if_true] at hs hD
     cases opts with
     | str nm =>
       simp only at hs
@@ -453,7 +473,7 @@ theorem stage_eq_spec (db : Db) (op : String) (opts : Val) (docs s : List Val)
   · subst h6
     simp only [specStage, stageReasons, show ¬ ("$project" = "$match") by decide,
       show ¬ ("$project" = "$sort") by decide, show ¬ ("$project" = "$skip") by decide,
-      show ¬ ("$project" = "$limit") by decide, show ¬ ("$project" = "$count") by decide,
+      show ¬ ("$project" = "$limit") by decide, decide_false, Bool.or_self, Bool.false_eq_true, show ¬ ("$project" = "$count") by decide,
       if_false, if_true] at hs hD
     cases opts with
     | doc options =>
@@ -469,7 +489,7 @@ theorem stage_eq_spec (db : Db) (op : String) (opts : Val) (docs s : List Val)
   · subst h7
     simp only [specStage, stageReasons, show ¬ ("$unwind" = "$match") by decide,
       show ¬ ("$unwind" = "$sort") by decide, show ¬ ("$unwind" = "$skip") by decide,
-      show ¬ ("$unwind" = "$limit") by decide, show ¬ ("$unwind" = "$count") by decide,
+      show ¬ ("$unwind" = "$limit") by decide, decide_false, Bool.or_self, Bool.false_eq_true, show ¬ ("$unwind" = "$count") by decide,
       show ¬ ("$unwind" = "$project") by decide, if_false, if_true] at hs hD
     cases ha : unwindArgs opts with
     | none => simp [ha] at hs
@@ -512,5 +532,159 @@ theorem pipeline_eq_spec (db : Db) : ∀ (p : List Val) (docs s : List Val),
         have h1 := stage_eq_spec db op opts docs out hD.1 hst
         simp only [runPipeline, runStage_single, runOp_simple db op opts docs hne, h1]
         exact pipeline_eq_spec db rest out s hD.2 hs
+
+/-! ### what MongoDB rejects, the code refuses -/
+
+/-- a `$limit` / `$skip` / `$count` argument MongoDB refuses makes the handler raise
+    OperationFailure, whatever the input -/
+theorem argRejected_opFail (db : Db) (op : String) (opts : Val) (docs : List Val)
+    (h : argRejected op opts = true) : simpleStage db op opts docs = .error .opFail := by
+  unfold argRejected at h
+  by_cases h1 : op = "$limit"
+  · subst h1
+    show limitStage opts docs = .error .opFail
+    cases opts with
+    | int n =>
+      simp only [if_true, sliceCount, decide_eq_true_eq] at h
+      rw [limitStage_int, if_neg (Int.not_lt.mpr h)]
+    | _ => rfl
+  by_cases h2 : op = "$skip"
+  · subst h2
+    show skipStage opts docs = .error .opFail
+    cases opts with
+    | int n =>
+      simp only [show ¬ ("$skip" = "$limit") by decide, if_false, if_true, sliceCount,
+        decide_eq_true_eq] at h
+      rw [skipStage_int, if_neg (Int.not_le.mpr h)]
+    | _ => rfl
+  by_cases h3 : op = "$count"
+  · subst h3
+    show countStage opts docs = .error .opFail
+    cases opts with
+    | str s =>
+      simp only [show ¬ ("$count" = "$limit") by decide, show ¬ ("$count" = "$skip") by decide,
+        if_false, if_true, countName, Bool.not_and, Bool.or_eq_true, Bool.not_eq_true',
+        decide_eq_false_iff_not, ne_eq, not_not, Bool.not_not] at h
+      simp only [countStage]
+      rcases h with (h | h) | h
+      · simp [h]
+      · by_cases he : s = "" <;> simp [he, h]
+      · have h' : '.' ∈ s.toList := by simpa using h
+        by_cases he : s = "" <;> by_cases hd : startsWithDollar s = true <;> simp [he, hd, h']
+    | _ => rfl
+  · simp [h1, h2, h3] at h
+
+/-- a stage MongoDB rejects — not a one-field document, or a refused argument — makes the code
+    raise (a Python error: the model does express these cases) -/
+theorem runStage_rejected (db : Db) (st : Val) (docs : List Val) (h : stageRejected st = true) :
+    ∃ e, e ≠ Err.unmodelled ∧ runStage db st docs = .error e := by
+  cases st with
+  | doc fs =>
+    match fs, h with
+    | [], _ => exact ⟨.opFail, by decide, rfl⟩
+    | [(op, opts)], h =>
+      simp only [stageRejected] at h
+      have hne : op ≠ "$facet" := by
+        intro he; subst he; simp [argRejected] at h
+      refine ⟨.opFail, by decide, ?_⟩
+      rw [runStage_single, runOp_simple db op opts docs hne]
+      exact argRejected_opFail db op opts docs h
+    | _ :: _ :: _, _ => exact ⟨.opFail, by decide, by simp [runStage, runOps]⟩
+  | str s =>
+    by_cases hl : s.length = 1
+    · exact ⟨.attrErr, by decide, by simp [runStage, hl]⟩
+    · exact ⟨.opFail, by decide, by simp [runStage, hl]⟩
+  | arr xs =>
+    by_cases hl : xs.length = 1
+    · exact ⟨.attrErr, by decide, by simp [runStage, hl]⟩
+    · exact ⟨.opFail, by decide, by simp [runStage, hl]⟩
+  | null => exact ⟨.typeErr, by decide, rfl⟩
+  | bool _ => exact ⟨.typeErr, by decide, rfl⟩
+  | int _ => exact ⟨.typeErr, by decide, rfl⟩
+  | dbl _ _ => exact ⟨.typeErr, by decide, rfl⟩
+  | date _ _ => exact ⟨.typeErr, by decide, rfl⟩
+  | oid _ => exact ⟨.typeErr, by decide, rfl⟩
+
+/-- a pipeline holding a rejected stage never answers documents -/
+theorem runPipeline_rejected (db : Db) : ∀ (p docs : List Val), p.any stageRejected = true →
+    ∀ out, runPipeline db p docs ≠ .ok out
+  | [], _, h, _ => by simp at h
+  | st :: rest, docs, h, out => by
+    simp only [runPipeline]
+    cases hr : runStage db st docs with
+    | error e => simp
+    | ok docs' =>
+      simp only [List.any_cons, Bool.or_eq_true] at h
+      rcases h with h | h
+      · obtain ⟨e, _, he⟩ := runStage_rejected db st docs h
+        rw [he] at hr; cases hr
+      · exact runPipeline_rejected db rest docs' h out
+
+/-- on every argument but a double the oracle of `$skip` / `$limit` speaks (documents or
+    rejected) and the case lies in the domain -/
+theorem slice_spec_total (op : String) (o : Val) (docs : List Val)
+    (hop : op = "$skip" ∨ op = "$limit") (h : ∀ m e, o ≠ .dbl m e) :
+    (∃ v, specStageV op o docs = some v) ∧ stageReasons op o docs = [] := by
+  have hne : ∀ n : Int, (0 ≤ n) ∨ (n < 0) := fun n => by omega
+  rcases hop with rfl | rfl
+  · refine ⟨?_, ?_⟩
+    · cases o with
+      | int n =>
+        by_cases hn : 0 ≤ n
+        · exact ⟨.docs (docs.drop n.toNat), by
+            simp [specStageV, argRejected, specStage, sliceCount, hn, Int.not_lt.mpr hn]⟩
+        · exact ⟨.rejected, by simp [specStageV, argRejected, sliceCount, Int.not_le.mp hn]⟩
+      | dbl m e => exact absurd rfl (h m e)
+      | _ => exact ⟨.rejected, by simp [specStageV, argRejected, sliceCount]⟩
+    · cases o with
+      | dbl m e => exact absurd rfl (h m e)
+      | _ => simp [stageReasons]
+  · refine ⟨?_, ?_⟩
+    · cases o with
+      | int n =>
+        by_cases hn : 0 < n
+        · exact ⟨.docs (docs.take n.toNat), by
+            simp [specStageV, argRejected, specStage, sliceCount, hn, Int.not_le.mpr hn]⟩
+        · exact ⟨.rejected, by simp [specStageV, argRejected, sliceCount, Int.not_lt.mp hn]⟩
+      | dbl m e => exact absurd rfl (h m e)
+      | _ => exact ⟨.rejected, by simp [specStageV, argRejected, sliceCount]⟩
+    · cases o with
+      | dbl m e => exact absurd rfl (h m e)
+      | _ => simp [stageReasons]
+
+theorem stageV_eq_spec (db : Db) (op : String) (opts : Val) (docs : List Val) (v : Verdict)
+    (hD : stageReasons op opts docs = []) (hs : specStageV op opts docs = some v) :
+    v.agrees (simpleStage db op opts docs) := by
+  unfold specStageV at hs
+  split at hs
+  · rename_i hr
+    cases hs
+    intro out
+    rw [argRejected_opFail db op opts docs hr]
+    simp
+  · cases hst : specStage op opts docs with
+    | none => simp [hst] at hs
+    | some s =>
+      simp only [hst, Option.map_some, Option.some.injEq] at hs
+      subst hs
+      exact stage_eq_spec db op opts docs s hD hst
+
+theorem pipelineV_eq_spec (db : Db) (p docs : List Val) (v : Verdict)
+    (hD : pipelineReasonsV p docs = []) (hs : specPipelineV p docs = some v) :
+    v.agrees (runPipeline db p docs) := by
+  unfold specPipelineV at hs
+  unfold pipelineReasonsV at hD
+  split at hs
+  · rename_i hr
+    cases hs
+    exact runPipeline_rejected db p docs hr
+  · rename_i hr
+    simp only [hr] at hD
+    cases hsp : specPipeline p docs with
+    | none => simp [hsp] at hs
+    | some s =>
+      simp only [hsp, Option.map_some, Option.some.injEq] at hs
+      subst hs
+      exact pipeline_eq_spec db p docs s hD hsp
 
 end MongoModel.Pipe.Proofs
